@@ -2,8 +2,18 @@ use super::MetricTrait;
 use crate::base::TimePredicate;
 use crate::utils::curr_time_millis;
 use crate::{Error, Result};
+#[cfg(not(flea1lt_sentinel_rust_verif))]
 use std::sync::atomic::{AtomicU64, Ordering};
+#[cfg(flea1lt_sentinel_rust_verif)]
+use std::sync::{atomic::Ordering};
+#[cfg(flea1lt_sentinel_rust_verif)]
+use crate::verif::sync::{atomic::AtomicU64};
+#[cfg(not(flea1lt_sentinel_rust_verif))]
 use std::sync::{Arc, Mutex};
+#[cfg(flea1lt_sentinel_rust_verif)]
+use std::sync::{Arc};
+#[cfg(flea1lt_sentinel_rust_verif)]
+use crate::verif::sync::{Mutex};
 
 const DEFAULT_TIME: u64 = 0;
 
